@@ -11,6 +11,7 @@ import numpy as np
 from verde import coordinates as vc
 
 from symx import stubs
+from symx import engine as E
 from symx.engine import And, Or, Not, Implies, eq, le, lt, ge, gt
 from symx.harness import Harness
 
@@ -73,7 +74,8 @@ def h_shape(ctx):
         ctx.assume(w < ee)
         ctx.assume(s < no)
         region = (w, ee, s, no)
-        blocks, labels = vc.block_split((e, n), shape=(nn, ne), region=region)
+        # a third (vertical) coordinate is ignored
+        blocks, labels = vc.block_split((e, n, ctx.reals("up", e.shape)) if cfg.get("extra") else (e, n), shape=(nn, ne), region=region)
     else:
         blocks, labels = vc.block_split((e, n), shape=(nn, ne))
         w, ee, s, no = vc.get_region((e, n))
@@ -98,7 +100,19 @@ def h_spacing(ctx):
     ctx.assume(se > 0)
     ctx.assume(ee - w <= se * Fraction(cfg["maxq"]))
     ctx.assume(no - s <= sn * Fraction(cfg["maxq"]))
-    blocks, labels = vc.block_split((e, n), spacing=spacing, adjust=cfg["adjust"], region=(w, ee, s, no))
+    if cfg["per_direction"]:
+        # bound: each extent is also at most 2 maxq of the *other* spacing, so that an implementation pairing the spacings
+        # with the wrong axes still yields a bounded number of blocks (and a violated claim instead of a timeout)
+        ctx.assume(ee - w <= sn * Fraction(cfg["maxq"]) * 2)
+        ctx.assume(no - s <= se * Fraction(cfg["maxq"]) * 2)
+        ctx.assume(sn <= se * 4)
+        ctx.assume(se <= sn * 4)
+    if cfg.get("region") == "inferred":
+        # no region given: the blocks tile the bounding box of the points themselves
+        ctx.assume(And(eq(w, E.smin(list(e.ravel()))), eq(ee, E.smax(list(e.ravel()))), eq(s, E.smin(list(n.ravel()))), eq(no, E.smax(list(n.ravel())))))
+        blocks, labels = vc.block_split((e, n), spacing=spacing, adjust=cfg["adjust"])
+    else:
+        blocks, labels = vc.block_split((e, n), spacing=spacing, adjust=cfg["adjust"], region=(w, ee, s, no))
     # the block layout (n_north, n_east) is the one grid_coordinates(pixel_register=True)
     # derives from the same arguments (its node-count rule is C07's claim)
     ref = vc.grid_coordinates((w, ee, s, no), spacing=spacing, adjust=cfg["adjust"], pixel_register=True)
@@ -119,6 +133,8 @@ def _cfg_shape(tier, seed):
             {"shape": (2, 1), "pshape": (2,), "region": "inferred"},
             {"shape": (2, 3), "pshape": (1,), "region": "given"},
             {"shape": (1, 2), "pshape": (2, 2), "region": "given", "mem": "F"},
+            {"shape": (2, 2), "pshape": (1, 2), "region": "given", "extra": True},
+            {"shape": (2, 1), "pshape": (3,), "region": "inferred"},
         ]
     else:
         for sh in [(1, 1), (1, 3), (3, 1), (2, 2), (2, 3), (3, 2)]:
@@ -138,12 +154,16 @@ def _cfg_spacing(tier, seed):
         return [
             {"adjust": "spacing", "per_direction": False, "pshape": (1,), "maxq": "2"},
             {"adjust": "region", "per_direction": False, "pshape": (1,), "maxq": "2"},
+            {"adjust": "region", "per_direction": True, "pshape": (1,), "maxq": "3/2"},
+            {"adjust": "spacing", "per_direction": True, "pshape": (2,), "maxq": "3/2", "region": "inferred"},
         ]
     out = []
     for adjust in ("spacing", "region"):
         for per in (False, True):
             out.append({"adjust": adjust, "per_direction": per, "pshape": (1,), "maxq": "5/2"})
     out.append({"adjust": "spacing", "per_direction": False, "pshape": (2,), "maxq": "2"})
+    out.append({"adjust": "spacing", "per_direction": True, "pshape": (2,), "maxq": "2", "region": "inferred"})
+    out.append({"adjust": "region", "per_direction": False, "pshape": (2,), "maxq": "3/2", "region": "inferred"})
     return out
 
 
